@@ -15,7 +15,8 @@ RULE = ("Episodic MDP specs (every policy reaches an explicitly absorbing state 
         "learner in {Q, SARSA, expected SARSA, double Q} x step size in {0,.1,.25,.5,1} x exploration rate x softmax "
         "temperature incl. 0 x constant or per-action callable initial Q x 1-8 episodes x seed. A recording event "
         "listener copies every step; the reference folds the published update rule over that history. Non-trivial: "
-        ">=2 episodes, some state visited twice and some update with non-zero TD error; distinct by spec hash.")
+        ">=2 episodes, some state visited twice and some update with non-zero TD error; distinct by spec hash."
+        ' Also: low temperatures x cost-to-go magnitudes (|q/temp| up to 800), callable initial_q that is infinite / nan / undefined at absorbing states.')
 ASSUMPTIONS = ["the experience is observed through the public event_listener_class hook",
                "float comparison of folded tables at 1e-9"]
 
